@@ -63,6 +63,12 @@ def _apply_renames(rng, root, files, dirs, n, tag):
 def run_case(cs):
     rng = cs.rng
     tree = world.gen_tree(rng, max_files=8, max_dirs=rng.choice([0, 2, 4]), min_files=2, classes=["plain", "plain", "space", "uni", "punct"], distinct=True)
+    if rng.random() < 0.25:
+        # one zero-length file (marker / lock files): still the only file with that content
+        fl = sorted(k for k, v in tree.items() if v is not None)
+        if fl and not any(v == b"" for v in tree.values()):
+            tree[rng.choice(fl)] = b""
+            cs.count("trees_with_an_empty_file")
     d = cs.dir()
     root = os.path.join(d, world.root_name(rng))
     world.write_tree(root, tree)
